@@ -200,38 +200,50 @@ class Evaluator:
         self.fresh += 1
         return self.symbol(f"{hint}#{self.fresh}", array)
 
+    ELEMENTWISE = {"abs", "sqrt", "log", "max", "min", "pow", "exp"}
+
     def length_of(self, v) -> Rat:
         if isinstance(v, Vec):
             if v.kind == "point" and v.items and isinstance(v.items[0], Rat) and v.items[0].is_array():
                 return self.length_of(v.items[0])
             return Rat.const(len(v.items))
         if isinstance(v, Rat):
-            names = sorted({a.name for a in v.all_atoms() if a.kind == "sym" and a.array})
             lens = []
-            for n in names:
-                base = n[:-2] if n.endswith((".x", ".y")) else n
-                lens.append(self.len_map.get(n) or self.len_map.get(base) or anf.opaque("len", sym(base, True), array=False))
-            # slices carry their own length: len(x[lo:hi]) = hi - lo (None / negative bounds resolved
-            # against len(x); valid for in-range bounds, which is what the package uses)
-            for a in v.all_atoms():
-                if a.kind == "fn" and a.name == "slice":
-                    base_len = self.length_of(a.args[0])
-
-                    def bound(b, default):
-                        if b.symbols() == {"None"}:
-                            return default
-                        c = b.is_const()
-                        if c is not None and c < 0:
-                            return base_len.add(b)
-                        return b
-                    return bound(a.args[2], base_len).sub(bound(a.args[1], Rat.const(0)))
+            for a in v.atoms():
+                if not a.array:
+                    continue
+                lens.append(self._atom_length(a))
             if not lens:
-                return sym("N")
+                return anf.opaque("len", v, array=False)
             first = lens[0]
             if all(first.equals(l) for l in lens[1:]):
                 return first
             return anf.opaque("len", v, array=False)
         return anf.opaque("len", self.to_rat(v), array=False)
+
+    def _atom_length(self, a: Atom) -> Rat:
+        if a.kind == "sym":
+            n = a.name
+            base = n[:-2] if n.endswith((".x", ".y")) else n
+            return self.len_map.get(n) or self.len_map.get(base) or anf.opaque("len", sym(base, True), array=False)
+        if a.name == "slice":
+            # len(x[lo:hi]) = hi - lo (None / negative bounds resolved against len(x); valid for in-range
+            # bounds, which is what the package uses)
+            base_len = self.length_of(a.args[0])
+
+            def bound(b, default):
+                if b.symbols() == {"None"}:
+                    return default
+                c = b.is_const()
+                if c is not None and c < 0:
+                    return base_len.add(b)
+                return b
+            return bound(a.args[2], base_len).sub(bound(a.args[1], Rat.const(0)))
+        if a.name in self.ELEMENTWISE:
+            lens = [self.length_of(x) for x in a.args if x.is_array()]
+            if lens and all(lens[0].equals(l) for l in lens[1:]):
+                return lens[0]
+        return anf.opaque("len", Rat.from_atom(a), array=False)
 
     # -- coercions -----------------------------------------------------------
     def to_rat(self, v) -> Rat:
